@@ -67,9 +67,12 @@ type Step struct {
 	// DETECT/COMMANDS lists in the other letter case), match-case (MATCH
 	// pattern differs only by letter case), detect, area. Spec is the
 	// definition in force from the acknowledgement on.
-	Fence   int        `json:"fence,omitempty"`
-	Variant string     `json:"variant,omitempty"`
-	Spec    *FenceSpec `json:"spec,omitempty"`
+	// Unchanged: a SET that repeats the object exactly (same geometry; fields
+	// either all repeated with their current values or left out, i.e. carried over)
+	Unchanged bool       `json:"unchanged,omitempty"`
+	Fence     int        `json:"fence,omitempty"`
+	Variant   string     `json:"variant,omitempty"`
+	Spec      *FenceSpec `json:"spec,omitempty"`
 }
 
 // Case is a complete generated case (also the replay format).
